@@ -169,6 +169,10 @@ func (h H) transferReplyMeaning(rule string) {
 		iS := evIndex(t, func(e core.Event) bool { return e.Callee == "(*safeTimer).stop" && e.Args[0] == "transfer.timer" })
 		ok := iR >= 0 && t.Events[iR].Args[1] == "$1" && iS >= 0
 		h.C.Check(rule+" reply-shape", "(*transfer).reply path["+t.Describe()+"]", ok, t.ExitPos, "transfer.reply must answer the task with its argument and stop the transfer timer")
+		// back to idle: inProgress() and targetChosen() are false afterwards (timer, respCh, newTermTimer)
+		iN := evIndex(t, func(e core.Event) bool { return e.Callee == "(*safeTimer).stop" && e.Args[0] == "transfer.newTermTimer" })
+		idle := iS >= 0 && iN >= 0 && t.Mem("transfer.respCh") == "nil"
+		h.C.Check(rule+" reply-returns-to-idle", "(*transfer).reply idle["+t.Describe()+"]", idle, t.ExitPos, "after a transfer is answered some of its in-progress state survives (timer, reply channel, new-term timer): a late timeout-now answer or timer would be handled by a node that is no longer transferring (respCh="+t.Mem("transfer.respCh")+")")
 	}
 }
 
